@@ -170,12 +170,13 @@ def check_c15(rng, n, thorough=False):
         probs = [0.0, 0.3, 0.7, 1.0]
         degrees = ["NONE", "LOW", "MID", "HIGH"]
         seeds = [20, 0, 1, 7] + ([3, 11, 42, 99] if thorough else [])
+        normal_seeds = list(range(0, 64)) + ([116, 146, 153, 155, 241, 254, 258] + list(range(64, 400)) if thorough else [116, 155])
         dists = ["normal", "poisson", "uniform"]
         for dist in dists:
             for rt in runtimes:
                 for prob in probs:
                     for deg in degrees:
-                        for seed in seeds:
+                        for seed in (normal_seeds if (dist == "normal" and deg != "NONE" and prob > 0) else seeds):
                             dm = DelayModel(prob, dist, DelayModel.DelayDegree[deg], seed=seed)
                             inp = {"dist": dist, "runtime": rt, "prob": prob, "degree": deg, "seed": seed}
                             res["evaluations"] += 1
@@ -392,7 +393,19 @@ def check_c18(rng, n):
                         return [0 for x in s.strip("[]").split(",") if x != ""]
                     return "hot=%s hs=%s ht=%s cold=%s cs=%s ct=%s" % (d["hot"], lst(d["hs"]), d["ht"], d["cold"], lst(d["cs"]), d["ct"])
 
+                refuse_c2h = rng.random() < 0.35
                 for direction in ("h2c", "c2h"):
+                    if direction == "c2h" and refuse_c2h and cold.observations["stored"]:
+                        # fill the hot tier so that the observation does not fit back: the move must be refused
+                        fill = hot.current_capacity - rng.randint(0, size - 1)
+                        if fill > 0:
+                            hot.current_capacity -= fill
+                            left = fill
+                            while left > 0:
+                                c = min(left, hot_rate)
+                                drv.ask({"op": "bufop", "b": "deposit", "o": 1, "rate": c})
+                                left -= c
+                            bump(res["dist"], "c2h-should-be-refused")
                     pre = (hot.current_capacity, cold.current_capacity)
                     pre_lists = (list(hot.observations["stored"]), list(cold.observations["stored"]))
                     if direction == "h2c":
@@ -673,7 +686,7 @@ def check_c10(rng, n, hashseeds=("0", "1", "2")):
                 outs.append(w.stdout.readline().strip())
             # and twice in this process -- the second and third run share ONE delay-model object
             a = runsim.run_spec(spec, max_steps=400)
-            shared = {}
+            shared = {"share_sched": True}
             b = runsim.run_spec(spec, max_steps=400, shared=shared)
             c = runsim.run_spec(spec, max_steps=400, shared=shared)
             same_inproc = (a["out"] == b["out"] and a["end"] == b["end"] and b["out"] == c["out"] and b["end"] == c["end"])
